@@ -3193,6 +3193,8 @@ def discharge_panic(v, b, var, p, i, e, hint, tbcells):
         inner = subj[1] if subj[0] == "overflowed" else subj
         if inner[0] == "binop":
             a, k = inner[2], inner[3]
+            if a[0] == "const" and k[0] != "const" and inner[1].startswith("Add"):
+                a, k = k, a      # addition commutes
             base = a
             while base[0] == "someof":
                 base = base[1]
@@ -3211,6 +3213,8 @@ def discharge_panic(v, b, var, p, i, e, hint, tbcells):
             if base[0] == "param" and inner[1].startswith("Add"):
                 lt = [g for (_, g, _) in guards_before(p, i) if g[0] == "cmp" and g[3] == "<" and g[1] == base]
                 return ("K-arith", bool(lt), "t + 1 behind t < max" if lt else "unguarded increment of a parameter")
+            if inner[1].startswith("Sub") and _is_member_count(v, base) and k[0] == "const" and k[3] == 1 and v.op.roles.get(b) in ("UP", "UP_INNER"):
+                return ("K-arith", True, "member count - 1 inside a member handler: a member handler runs only if there is at least one member")
             if any(x[0] == "call" and x[2].endswith("::position") for x in walk(base)) or base[0] in ("upvar", "someof"):
                 return ("K-arith", True, "index + 1 with the index obtained from `position` on a live list")
         return ("K-arith", False, "arithmetic assertion %s on %s" % (hint, show(subj)[:60]))
